@@ -158,7 +158,8 @@ Theorem C17_contract_under_stack : forall E O A0 I Opt Enc C
   ((term || trunc) = true ->
      exists obs2 ri2, e_reset e1 None None = (e', (obs2, ri2)) /\ ri' = Some ri2 /\
        g_term g = Some (g_obs (run_stack s (gordinary (base_gout enc o) (enc obs)))) /\
-       g_obs g = g_obs (run_stack s (base_gout enc o)) /\ so_obs o = obs2) /\
+       (* the returned observation is the stack's transform of the NEXT episode's first observation *)
+       g_obs g = g_obs (run_stack s (mk_gout (enc obs2) (inject_Z r / 4)%Q true (trunc && negb term) (Some (enc obs))))) /\
   ((term || trunc) = false -> g_term g = None /\ so_obs o = obs /\ ri' = ri).
 Proof. exact contract_under_stack. Qed.
 Print Assumptions C17_contract_under_stack.
@@ -181,12 +182,16 @@ Theorem C17_sync_levels : forall (S : Type) (copy_stats : S -> S -> S) train eva
 Proof. exact (@sync_levels). Qed.
 Print Assumptions C17_sync_levels.
 
-(* with the VecNormalize model of C15 as the per-level copy *)
-Theorem C17_sync_levels_vecnorm : forall train evalc r k st se,
-  sync_chain VecNorm.sync train evalc = Some r ->
-  nth_error train k = Some (LNorm st) -> nth_error evalc k = Some (LNorm se) ->
-  exists s', nth_error r k = Some (LNorm s') /\
-    v_obs_rms s' = v_obs_rms st /\ v_ret_rms s' = v_ret_rms st /\ v_returns s' = v_returns se /\ v_training s' = v_training se.
+(* with the VecNormalize model of C15: ret_rms copied at every VecNormalize level, obs_rms only when the training level answers
+   hasattr(level, "obs_rms") (h: own attribute or forwarded by VecEnvWrapper.__getattr__), then the level is C15's VecNorm.sync *)
+Theorem C17_sync_levels_vecnorm : forall train evalc r k st h se he,
+  sync_chain vn_copy train evalc = Some r ->
+  nth_error train k = Some (LNorm (st, h)) -> nth_error evalc k = Some (LNorm (se, he)) ->
+  exists s', nth_error r k = Some (LNorm (s', h || he)) /\
+    v_ret_rms s' = v_ret_rms st /\
+    v_obs_rms s' = (if h then v_obs_rms st else v_obs_rms se) /\
+    (h = true -> s' = VecNorm.sync st se) /\
+    v_returns s' = v_returns se /\ v_training s' = v_training se /\ v_norm_obs s' = v_norm_obs se /\ v_norm_reward s' = v_norm_reward se.
 Proof. exact sync_levels_vecnorm. Qed.
 Print Assumptions C17_sync_levels_vecnorm.
 
